@@ -193,6 +193,59 @@ where
     }
 }
 
+/// args: bpp alt w h len seed.  `new_const` panics on a wrong length; the panic is caught here and printed as `panic`.
+fn img_new_const<C, O>(a: &[&str]) -> String
+where
+    C: Tag,
+    O: DataOrder,
+    for<'a> RawDataSlice<'a, C::Raw, O>: IntoIterator<Item = C::Raw>,
+{
+    let bytes = data(a[5], a[4]);
+    let (w, h) = (u(a[2]), u(a[3]));
+    let r = std::panic::catch_unwind(|| {
+        let img = ImageRaw::<C, O>::new_const(&bytes, Size::new(w, h));
+        let f = |p: Point| match img.pixel(p) {
+            Some(c) => c.tag().to_string(),
+            None => "none".to_string(),
+        };
+        format!("ok {} {} {} {}", img.size().width, img.size().height, f(Point::zero()), f(Point::new(w as i32 - 1, h as i32 - 1)))
+    });
+    match r {
+        Ok(s) => s,
+        Err(_) => {
+            let msg = LAST_PANIC_MSG.with(|p| p.borrow().clone());
+            if msg.contains("Invalid data size") {
+                "panic".to_string()
+            } else {
+                format!("panic-other {}", msg)
+            }
+        }
+    }
+}
+
+/// the property on the implementation: new_const returns the image for exactly the documented length and panics otherwise
+fn p_img_new_const<C, O>(a: &[&str]) -> String
+where
+    C: Tag,
+    O: DataOrder,
+    for<'a> RawDataSlice<'a, C::Raw, O>: IntoIterator<Item = C::Raw>,
+{
+    let (bpp, w, h) = (u(a[0]) as u64, u(a[2]) as u64, u(a[3]) as u64);
+    let want = stride(w, bpp) * h;
+    let got = img_new_const::<C, O>(a);
+    if us(a[4]) as u64 == want {
+        if got.starts_with(&format!("ok {} {} ", w, h)) {
+            "OK 1".to_string()
+        } else {
+            format!("FAIL new_const on the exact length {}: {}", want, got)
+        }
+    } else if got == "panic" {
+        "OK 0".to_string()
+    } else {
+        format!("FAIL new_const on {} bytes ({} required): {}", a[4], want, got)
+    }
+}
+
 fn img_pixels<C, O>(a: &[&str]) -> String
 where
     C: Tag,
@@ -391,13 +444,19 @@ where
         // draw_sub_image(area) called directly: draws the area (at the origin) iff it lies fully inside
         let k = 15 + 4 * nsub;
         let (ax, ay, aw, ah) = (i(a[k]) as i64, i(a[k + 1]) as i64, u(a[k + 2]) as i64, u(a[k + 3]) as i64);
-        let inside = !empty && aw > 0 && ah > 0 && ax >= 0 && ay >= 0 && ax + aw <= sw && ay + ah <= sh;
-        if !inside {
+        if empty {
+            // a zero sized SubImage: where its (clipped) area sits in the root is an artefact of intersection(); not judged
             if nsub == 0 {
                 return nothing_drawn(&ob, "area not inside the image").unwrap_or("OK 0".to_string());
             }
-            // an area outside a SubImage's own box is passed on to the parent: not specified, not judged
             return "OK skip".to_string();
+        }
+        // sub_image.rs:60-67 only re-bases: the area is judged against the ROOT image (C09_draw_sub_image_direct_nested),
+        // (x0, y0) = accumulated top left corner of the sub image in the root
+        let (rx, ry) = (x0 + ax, y0 + ay);
+        let inside = aw > 0 && ah > 0 && rx >= 0 && ry >= 0 && rx + aw <= w as i64 && ry + ah <= h as i64;
+        if !inside {
+            return nothing_drawn(&ob, "area not inside the root image").unwrap_or("OK 0".to_string());
         }
         tl = Point::zero();
         dw = aw;
@@ -468,9 +527,11 @@ where
 pub fn run(suite: &str, a: &[&str]) -> Option<String> {
     Some(match suite {
         "img_new" => dispatch!(img_new, a),
+        "img_new_const" => dispatch!(img_new_const, a),
         "img_pixels" => dispatch!(img_pixels, a),
         "img_draw" => dispatch!(img_draw, a),
         "p_img_new" => dispatch!(p_img_new, a),
+        "p_img_new_const" => dispatch!(p_img_new_const, a),
         "p_img_pixels" => dispatch!(p_img_pixels, a),
         "p_img_draw" => dispatch!(p_img_draw, a),
         _ => return None,
